@@ -137,6 +137,8 @@ PROBES = {
     # fixes/f21-canjoin-on-forced-labels.patch: on(a) with `a` on neither side is a valid join
     "OnForced": _bin("and", "on", ["a"], _agg("sum", "none", [], _sel("m")), _agg("sum", "without", ["a"], _sel("m"))),
     # fixes/f22-empty-matcher-not-guaranteed.patch: absent(m{a=""}) does not guarantee label a
+    # fixes/C12-static-value-tracking.patch: count() of a known value is not that value
+    "StaticVal": _bin("==", "none", [], _agg("count", "none", [], {"k": "vec", "e": {"k": "num", "v": 2}}), {"k": "num", "v": 1}),
     "EmptyEq": _bin("and", "none", [], {"k": "fn", "f": "absent", "e": _sel("m", "empty"), "dst": "", "src": "", "re": "", "repl": ""},
                 {"k": "fn", "f": "absent", "e": _sel("n"), "dst": "", "src": "", "re": "", "repl": ""}),
 }
